@@ -34,14 +34,16 @@ Timeline == H.mode \in {"time", "tlnr"} /\ ~H.multi
 Mpd == /\ e.ev = "mpd"
        /\ Clause("C02.mpd_served", e.st = 200, <<"status", e.st>>)
        /\ IF e.st # 200 THEN cur' = None /\ prev' = prev
-          ELSE LET rnow  == NowU(e.now)
-                   stopU == MsPair(SC, H.stop * 1000)
-                   after == H.stop >= 0 /\ TLt(stopU, rnow)          \* C05.stop: the request instant is after the stop time
-                   now   == IF after THEN stopU ELSE rnow             \* the presentation is frozen at the stop time
-                   E     == IF Timeline THEN Expand(SC, e.S) ELSE <<>>
-                   \* audio follows the video grid (C03): no own grid here, only contiguity and the fetch clauses
-                   first == IF Len(E) > 0 /\ H.kind # "audio" THEN IdxOfStart(SC, E[1].t) ELSE <<-1, -1>>
-                   last  == IF Len(E) > 0 /\ first[1] >= 0 THEN Plus(SC, first, Len(E) - 1) ELSE <<-1, -1>>
+          ELSE
+          \* (E, first, last are bound by \E over singleton sets: TLC evaluates a bound value once, whereas a LET definition
+          \*  is re-evaluated at every use - the expansion of a 60 s timeline dozens of times per event)
+          \E E \in {IF Timeline THEN Expand(SC, e.S) ELSE <<>>} :
+          \* audio follows the video grid (C03): no own grid here, only contiguity and the fetch clauses
+          \E first \in {IF Len(E) > 0 /\ H.kind # "audio" THEN IdxOfStart(SC, E[1].t) ELSE <<-1, -1>>} :
+          \E last \in {IF Len(E) > 0 /\ first[1] >= 0 THEN Plus(SC, first, Len(E) - 1) ELSE <<-1, -1>>} :
+          \E now \in {LET rnow == NowU(e.now) stopU == MsPair(SC, H.stop * 1000)
+                      IN IF H.stop >= 0 /\ TLt(stopU, rnow) THEN stopU ELSE rnow} :   \* the presentation is frozen at the stop time
+               LET after == H.stop >= 0 /\ TLt(MsPair(SC, H.stop * 1000), NowU(e.now))   \* C05.stop: the request instant is after the stop time
                    pt    == NowU(e.pt)
                    had   == prev.ok
                IN
